@@ -34,7 +34,7 @@ T = {
  "C07": ("Paillier with explicit limb widths: closed form of encryption, both decryption paths invert it, paths agree, N-th root, "
          "key round trip, admission iff value < N; all keys satisfying key_ok, all widths.",
          "Coq proof (number theory over Z) + in-Coq evaluation of the model against the real crate"),
- "C08": ("add/mul closed forms mod N^2, homomorphism mod N including wrap-around, mul_vartime = mul.",
+ "C08": ("add/mul closed forms mod N^2, homomorphism mod N including wrap-around, mul_vartime = mul; for every ciphertext that carries a plaintext and every expression tree of operations (hom_tree, by induction).",
          "Coq proof + in-Coq evaluation of the model against the real crate"),
  "C09": ("Cut-and-choose proof, BigUint codecs and wire format modelled; honest proofs verify and decrypt for every tape; codec round trips; "
          "security parameter modelled at usize width (refused outside 128..=256 for every value up to 2^64-1).",
